@@ -220,7 +220,7 @@ theorem QStep.trans {s s1 s2 : CState} (h1 : QStep s s1) (h2 : QStep s1 s2) : QS
 
 theorem QStep.of_same {s s' : CState} (hn : s'.qc.numQubits = s.qc.numQubits)
     (hq : s'.qc.qmap = s.qc.qmap) : QStep s s' :=
-  ⟨Nat.le_of_eq hn.symm, fun p hp => Or.inl (hq ▸ hp)⟩
+  ⟨Nat.le_of_eq hn.symm, fun _ hp => Or.inl (hq ▸ hp)⟩
 
 theorem QStep.of_qc {s s' : CState} (h : s'.qc = s.qc) : QStep s s' :=
   QStep.of_same (by rw [h]) (by rw [h])
